@@ -82,7 +82,7 @@ def main():
         print("HARNESS-ERROR property=%s check crashed" % pid)
         return 2
     rc, paths = ctx.finish()
-    ok = validate_evidence(os.path.join(VERIF, "evidence", "%s.json" % pid))
+    ok = validate_evidence(os.path.join(os.environ.get("VERIF_OUT", VERIF), "evidence", "%s.json" % pid))
     ctx.log(
         "evaluations=%d states=%d transitions=%d traces=%d outcomes=%d exhaustive=%s wall=%.1fs"
         % (ctx.evaluations, len(ctx.states) + ctx.state_count, ctx.transitions, ctx.traces, len(ctx.outcomes), ctx.exhaustive,
